@@ -666,14 +666,14 @@ static inline bool operator!=(const std::string& a,
 //! lexicographically
 static inline bool operator<(const StringView& a, const std::string& b) noexcept
 {
-    return std::lexicographical_compare(a.begin(), a.end(), b.begin(), b.end());
+    return a < StringView(b);
 }
 
 //! less operator to compare a StringView with a std::string
 //! lexicographically
 static inline bool operator<(const std::string& a, const StringView& b) noexcept
 {
-    return std::lexicographical_compare(a.begin(), a.end(), b.begin(), b.end());
+    return StringView(a) < b;
 }
 
 static inline bool operator>(const StringView& x, const std::string& y) noexcept
